@@ -86,6 +86,7 @@ type World struct {
 	mem    *recStore
 	out    taskctl.OutputStore
 	srv    http.Handler
+	routes []routeInfo
 	dir    string
 
 	dead             bool
@@ -452,7 +453,13 @@ func (run *Run) newWorldIn(dir string, initial *store.PersistedData, defs DefSet
 	w.r = r
 	run.runnerOwner[r] = w
 	if cfg.HTTP {
-		w.srv = server.NewServer(r, w.out, func(h http.Handler) http.Handler { return h }, jwtTokenAuth(), false)
+		srv := server.NewServer(r, w.out, func(h http.Handler) http.Handler { return h }, jwtTokenAuth(), cfg.Profiling)
+		w.srv = srv
+		for _, rt := range discoverRoutes(srv) {
+			if !skipRoute(rt.Path) {
+				w.routes = append(w.routes, rt)
+			}
+		}
 	}
 	run.worlds = append(run.worlds, w)
 	return w, nil
